@@ -224,6 +224,7 @@ def _short_facts(pr):
 
 # -------------------------------------------------------------------------------------- C09.a
 _REPO = None
+_ALIASES = {}
 COMMENT_SINKS = {'commentdoc', 'comment_doc', 'comment', 'comment_value', 'CommentAnnotation', 'trailing_comment',
                  '_CommentedValue', '_TrailingCommentedValue'}
 
@@ -264,6 +265,14 @@ def _taint(repo, rep):
             if not tainted:
                 continue
             par = enclosing_map(f.node)
+            # local names that stand for one of several functions: ``annotator = comment_doc if ... else comment_value``
+            global _ALIASES
+            _ALIASES = {}
+            for s_ in ast.walk(f.node):
+                if isinstance(s_, ast.Assign) and len(s_.targets) == 1 and isinstance(s_.targets[0], ast.Name):
+                    vals = [s_.value.body, s_.value.orelse] if isinstance(s_.value, ast.IfExp) else [s_.value]
+                    if all(isinstance(v_, ast.Name) for v_ in vals):
+                        _ALIASES.setdefault(s_.targets[0].id, set()).update(v_.id for v_ in vals)
             for nm in ast.walk(f.node):
                 if not (isinstance(nm, ast.Name) and nm.id in tainted and isinstance(nm.ctx, ast.Load)):
                     continue
@@ -302,6 +311,8 @@ def _taint_use_ok(nm, par, tainted):
         cn = call_name(p)
         if cn in COMMENT_SINKS and (child in p.args):
             return True, 'argument of %s' % cn
+        if cn in _ALIASES and _ALIASES[cn] and _ALIASES[cn] <= COMMENT_SINKS and child in p.args:
+            return True, 'argument of %s' % '/'.join(sorted(_ALIASES[cn]))
         if cn == 'bool' or cn == 'isinstance':
             return True, 'test'
         if child in p.args and _REPO is not None:
